@@ -15,6 +15,8 @@ from pyvc.runner import ContractTask
 from pyvc.values import *   # noqa
 from pyvc.interp import int_to_str
 from . import c02
+from .common import register_classes
+from .transit_lib import BodyLemma
 
 PROP = "C03"
 
@@ -106,6 +108,335 @@ CONTRACTS = [
 ]
 
 
+# ---------------------------------------------------------------------------------------------------------------
+# The hops between the functions above, each verified THROUGH THE REAL TRANSITION TABLE of its machine (state set
+# first, then the row's outputs in order, real bodies; an input without a row raises NoTransition as Automat does).
+# A row that loses / gains an output, an output attached to the wrong state, or a body that passes something else
+# on fails here.  The Mailbox side of add_message / rx_message_ours (queue vs tx now, retire on echo) is verified the
+# same way in C09's module (props/c09.py MACHINE_CONTRACTS).
+BOSS = "wormhole/_boss.py:Boss."
+BOSS_FIELDS = {"__state": "state", "_next_tx_phase": "int", "_S": "obj[ISend]", "_rx_phases": "dict[int,bytes]",
+               "_next_rx_phase": "int", "_W": "obj[IWormhole]"}
+B_OPEN = "'S0_empty', 'S1_lonely', 'S2_happy'"
+B_DONE = "'S3_closing', 'S4_closed'"
+RX_KEPT = ("self._next_rx_phase == old(self._next_rx_phase) and forall(lambda k: (k in self._rx_phases) == "
+           "(k in old(self._rx_phases)) and implies(k in self._rx_phases, self._rx_phases[k] == old(self._rx_phases)[k]))")
+STATE_KEPT = ("state-kept", "state_index(self) == old(state_index(self))")
+
+SEND_FIELDS = {"__state": "state", "_queue": QS, "_key": "bytes", "_side": "str", "_M": "obj[IMailbox]"}
+ORDER_FIELDS = {"__state": "state", "_queue": QO, "_R": "obj[IReceive]", "_K": "obj[IKey]"}
+RECV_FIELDS = {"__state": "state", "_key": "bytes", "_side": "str", "_S": "obj[ISend]", "_B": "obj[IBoss]"}
+MB_FIELDS = {"__state": "state", "_pending_outbound": "dict[str,bytes]", "_mailbox": "opt[str]", "_mood": "opt[str]",
+             "_side": "str", "_processed": "set[str]",
+             "_RC": "obj[IRendezvousConnector]", "_N": "obj[INameplate]", "_O": "obj[IOrder]", "_T": "obj[ITerminator]"}
+PROCESSED_KEPT = "forall(lambda p: (p in self._processed) == (p in old(self._processed)), 'str')"
+
+MACHINE_CONTRACTS = [
+    # ------------------------------------------------------------------ API -> numbering
+    Contract(BOSS + "send", props=[PROP], params={"plaintext": "bytes"}, self_fields=BOSS_FIELDS,
+             requires=["self._next_tx_phase >= 0"], modifies=["__state", "_next_tx_phase"],
+             ensures=[("one-number-per-message-until-closing",
+                       f"self._next_tx_phase == old(self._next_tx_phase) + ite(old(in_state(self, {B_OPEN})), 1, 0)"),
+                      STATE_KEPT],
+             internal_ensures=[
+                 ("numbered-and-handed-to-Send-once-unchanged",
+                  f"implies(old(in_state(self, {B_OPEN})), bcall_names() == ['send'] and "
+                  "bcall_arg('send', 0, 0) == int_str(old(self._next_tx_phase)) and bcall_arg('send', 0, 1) == plaintext)"),
+                 ("nothing-sent-once-closing", f"implies(old(in_state(self, {B_DONE})), len(bcall_names()) == 0)")],
+             note="Boss.send in every state: S_send (by its contract) runs exactly in S0/S1/S2; after close() started the "
+                  "message is dropped and no number is used up"),
+    Contract(BOSS + "_got_phase", props=[PROP], params={"phase": "int", "plaintext": "bytes"}, self_fields=BOSS_FIELDS,
+             requires=["self._next_rx_phase not in self._rx_phases"],
+             raises_exactly={"NoTransition": "in_state(self, 'S0_empty', 'S1_lonely')"},
+             modifies=["__state", "_rx_phases", "_next_rx_phase"],
+             ensures=[("dropped-once-closing", f"implies(old(in_state(self, {B_DONE})), {RX_KEPT})"), STATE_KEPT],
+             internal_ensures=[
+                 ("reorder-buffer-runs-exactly-when-happy-with-this-phase-and-body",
+                  "n_calls('Boss.W_received') == ite(old(in_state(self, 'S2_happy')), 1, 0) and "
+                  "implies(old(in_state(self, 'S2_happy')), call_arg('Boss.W_received', 0, 1) == phase and "
+                  "call_arg('Boss.W_received', 0, 2) == plaintext)"),
+                 ("nothing-else-happens", "len(bcall_names()) == 0")],
+             ensures_raise={"NoTransition": [("nothing-happened", "n_calls('Boss.W_received') == 0 and len(bcall_names()) == 0")]},
+             note="W_received is applied through its contract (proved on the real loop in C02's module)"),
+    BodyLemma("lemma:numeric_phase_reaches_the_reorder_buffer_once_unchanged", BOSS + "got_message", props=[PROP],
+              params={"phase": "str", "plaintext": "bytes"}, self_fields=BOSS_FIELDS,
+              requires=["is_numeric_phase(phase)", "self._next_rx_phase not in self._rx_phases",
+                        "in_state(self, 'S2_happy', 'S3_closing', 'S4_closed')"],
+              modifies=["__state", "_rx_phases", "_next_rx_phase"],
+              ensures=[("exactly-one-W_received-with-the-decimal-value-and-the-same-plaintext-when-happy",
+                        "n_calls('Boss.W_received') == ite(old(in_state(self, 'S2_happy')), 1, 0) and "
+                        "implies(old(in_state(self, 'S2_happy')), call_arg('Boss.W_received', 0, 1) == decimal_value(phase) and "
+                        "call_arg('Boss.W_received', 0, 2) == plaintext)"),
+                       ("dropped-once-closing", f"implies(old(in_state(self, {B_DONE})), {RX_KEPT})"),
+                       ("nothing-else-happens", "len(bcall_names()) == 0")],
+              note="the real chain Boss.got_message -> _got_phase (real transition table) -> W_received (contract)"),
+    # ------------------------------------------------------------------ Send: queue before the key, deliver after
+    Contract("wormhole/_send.py:Send.send", props=[PROP], params={"phase": "str", "plaintext": "bytes"},
+             self_fields=SEND_FIELDS, modifies=["__state", "_queue"],
+             requires=["implies(in_state(self, 'S1_verified_key'), len(self._key) > 0)", "is_ascii(self._side)", "is_ascii(phase)"],
+             ensures=[("queued-at-the-end-before-the-key", "implies(old(in_state(self, 'S0_no_key')), "
+                                                          "self._queue == old(self._queue) + [(phase, plaintext)])"),
+                      ("queue-untouched-after-the-key", "implies(old(in_state(self, 'S1_verified_key')), "
+                                                        "self._queue == old(self._queue))"),
+                      STATE_KEPT],
+             internal_ensures=[
+                 ("nothing-sent-before-the-key", "implies(old(in_state(self, 'S0_no_key')), len(bcall_names()) == 0)"),
+                 ("sent-at-once-after-the-key-exactly-once", "implies(old(in_state(self, 'S1_verified_key')), bcall_names() == ['add_message'])"),
+                 ("sent-at-once-after-the-key-sealed-under-its-own-label",
+                  "implies(old(in_state(self, 'S1_verified_key')) and bcalls('add_message') == 1, "
+                  "bcall_arg('add_message', 0, 0) == phase and "
+                  "sealed(bcall_arg('add_message', 0, 1), phase_key(self._key, self._side, phase), plaintext))")],
+             note="real bodies of queue / deliver / _encrypt_and_send through the table; key functions by contract"),
+    Contract("wormhole/_send.py:Send.got_verified_key", props=[PROP], params={"key": "bytes"},
+             self_fields=SEND_FIELDS, modifies=["__state", "_queue", "_key"],
+             requires=["len(key) > 0", "is_ascii(self._side)",
+                       "forall(lambda i: implies(0 <= i and i < len(self._queue), is_ascii(self._queue[i][0])))"],
+             raises_exactly={"NoTransition": "in_state(self, 'S1_verified_key')"},
+             ensures=[("key-recorded-and-queue-flushed", "self._key == key and len(self._queue) == 0"),
+                      ("now-delivering-directly", "in_state(self, 'S1_verified_key')")],
+             internal_ensures=[("flushed-by-drain-after-the-key-was-recorded",
+                                "n_calls('Send.drain') == 1 and call_arg('Send.drain', 0, 0)._key == key")],
+             note="record_key runs before drain (row order), so drain's contract (every queued message once, in order, each "
+                  "under its own label, proved on the real loop) is applied with the verified key"),
+    # ------------------------------------------------------------------ Mailbox: dedup on the way in
+    Contract("wormhole/_mailbox.py:Mailbox.rx_message_theirs", props=[PROP],
+             params={"side": "str", "phase": "str", "body": "bytes"}, self_fields=MB_FIELDS,
+             modifies=["__state", "_processed"],
+             raises_exactly={"NoTransition": "in_state(self, 'S0A', 'S0B', 'S1A', 'S2A', 'S3A')"},
+             ensures=[("phase-remembered-while-open",
+                       "implies(old(in_state(self, 'S2B')), forall(lambda p: (p in self._processed) == "
+                       "(p in old(self._processed) or p == phase), 'str'))"),
+                      ("untouched-once-closing", f"implies(not old(in_state(self, 'S2B')), {PROCESSED_KEPT})"), STATE_KEPT],
+             internal_ensures=[
+                 ("new-phase-forwarded-once-unchanged",
+                  "implies(old(in_state(self, 'S2B')) and phase not in old(self._processed), "
+                  "bcall_names() == ['release', 'got_message'] and bcall_arg('got_message', 0, 0) == side and "
+                  "bcall_arg('got_message', 0, 1) == phase and bcall_arg('got_message', 0, 2) == body)"),
+                 ("seen-phase-not-forwarded-again",
+                  "implies(old(in_state(self, 'S2B')) and phase in old(self._processed), bcall_names() == ['release'])"),
+                 ("nothing-forwarded-once-closing", "implies(not old(in_state(self, 'S2B')), len(bcall_names()) == 0)")],
+             ensures_raise={"NoTransition": [("nothing-forwarded", "len(bcall_names()) == 0")]},
+             note="exactly once: a phase string reaches Order at most once per Mailbox, whatever the server repeats"),
+    # ------------------------------------------------------------------ Order: hold back until the PAKE, then FIFO
+    Contract("wormhole/_order.py:Order.got_message", props=[PROP], params={"side": "str", "phase": "str", "body": "bytes"},
+             self_fields=ORDER_FIELDS, modifies=["__state", "_queue"],
+             raises_exactly={"NoTransition": "phase == 'pake' and in_state(self, 'S1_yes_pake')"},
+             ensures=[("held-back-in-arrival-order-before-the-pake",
+                       "implies(phase != 'pake' and old(in_state(self, 'S0_no_pake')), "
+                       "self._queue == old(self._queue) + [(side, phase, body)] and in_state(self, 'S0_no_pake'))"),
+                      ("queue-untouched-after-the-pake",
+                       "implies(phase != 'pake' and old(in_state(self, 'S1_yes_pake')), self._queue == old(self._queue) and "
+                       "in_state(self, 'S1_yes_pake'))"),
+                      ("pake-flushes-the-queue", "implies(phase == 'pake', len(self._queue) == 0 and in_state(self, 'S1_yes_pake'))")],
+             internal_ensures=[
+                 ("nothing-forwarded-before-the-pake",
+                  "implies(phase != 'pake' and old(in_state(self, 'S0_no_pake')), len(bcall_names()) == 0)"),
+                 ("forwarded-once-unchanged-after-the-pake",
+                  "implies(phase != 'pake' and old(in_state(self, 'S1_yes_pake')), bcall_names() == ['got_message'] and "
+                  "bcall_arg('got_message', 0, 0) == side and bcall_arg('got_message', 0, 1) == phase and "
+                  "bcall_arg('got_message', 0, 2) == body)"),
+                 ("pake-goes-to-Key-then-the-held-back-messages-are-drained",
+                  "implies(phase == 'pake', bcall_names() == ['got_pake'] and bcall_arg('got_pake', 0, 0) == body and "
+                  "n_calls('Order.drain') == 1)")],
+             ensures_raise={"NoTransition": [("nothing-forwarded", "len(bcall_names()) == 0")]},
+             note="drain is applied through its contract (every held-back message forwarded once, in arrival order, proved on "
+                  "the real loop); a second pake cannot arrive (the Mailbox forwards each phase string once)"),
+    # ------------------------------------------------------------------ Receive: good message -> Boss, unchanged
+    Contract("wormhole/_receive.py:Receive.got_message_good", props=[PROP], params={"phase": "str", "plaintext": "bytes"},
+             self_fields=RECV_FIELDS, modifies=["__state"],
+             requires=["len(self._key) == 32"],
+             raises_exactly={"NoTransition": "in_state(self, 'S0_unknown_key')"},
+             ensures=[("verified-unless-scared", "in_state(self, 'S2_verified_key') == (not old(in_state(self, 'S3_scared')))")],
+             internal_ensures=[
+                 ("handed-to-Boss-exactly-once-unchanged-unless-scared",
+                  "bcalls('got_message') == ite(old(in_state(self, 'S3_scared')), 0, 1) and "
+                  "implies(not old(in_state(self, 'S3_scared')), bcall_arg('got_message', 0, 0) == phase and "
+                  "bcall_arg('got_message', 0, 1) == plaintext and bcall_names()[len(bcall_names()) - 1] == 'got_message')"),
+                 ("first-good-message-makes-the-Boss-happy-before-it-is-delivered",
+                  "implies(old(in_state(self, 'S1_unverified_key')), "
+                  "bcall_names() == ['got_verified_key', 'happy', 'got_verifier', 'got_message'] and "
+                  "bcall_arg('got_verified_key', 0, 0) == self._key)"),
+                 ("later-good-messages-only-delivered", "implies(old(in_state(self, 'S2_verified_key')), bcall_names() == ['got_message'])"),
+                 ("scared-delivers-nothing", "implies(old(in_state(self, 'S3_scared')), len(bcall_names()) == 0)")],
+             ensures_raise={"NoTransition": [("nothing-delivered", "len(bcall_names()) == 0")]},
+             note="after a bad message (S3_scared) nothing is ever delivered again; `happy` precedes the first delivery, so the "
+                  "Boss is in S2_happy (or closing) when _got_phase arrives"),
+    # ------------------------------------------------------------------ the API ends
+    Contract("wormhole/wormhole.py:_DeferredWormhole.send_message", props=[PROP], params={"plaintext": "bytes"},
+             self_fields={"_boss": "obj[IBoss]"}, effects=[("send", ["plaintext"])]),
+    Contract("wormhole/wormhole.py:_DelegatedWormhole.send_message", props=[PROP], params={"plaintext": "bytes"},
+             self_fields={"_boss": "obj[IBoss]"}, effects=[("send", ["plaintext"])]),
+    Contract("wormhole/wormhole.py:_DelegatedWormhole.received", props=[PROP], params={"plaintext": "bytes"},
+             self_fields={"_delegate": "obj[Delegate]"}, effects=[("wormhole_got_message", ["plaintext"])],
+             note="delegated mode: each W.received becomes exactly one wormhole_got_message with the same bytes, synchronously "
+                  "(so in the order of the reorder buffer)"),
+]
+
+
+def regf_machine():
+    """registry for the contracts verified through the real transition tables: the tiny outputs (Send.queue/deliver,
+    Order.queue/deliver, Mailbox.N_release_and_accept, ...) are executed, the loops (Send.drain, Order.drain,
+    Boss.W_received) and the key functions are used through their contracts"""
+    from pyvc.automat import AutomatSupport
+    reg = regf(exclude=("wormhole/_send.py:Send.queue", "wormhole/_send.py:Send.deliver", "wormhole/_order.py:Order.queue",
+                        "wormhole/_order.py:Order.deliver", "wormhole/_mailbox.py:Mailbox.N_release_and_accept",
+                        "wormhole/_mailbox.py:Mailbox.queue", "wormhole/_mailbox.py:Mailbox.dequeue",
+                        "wormhole/_mailbox.py:Mailbox.RC_tx_add", "wormhole/_boss.py:Boss.got_message",
+                        "wormhole/_receive.py:Receive.got_message", "wormhole/_mailbox.py:Mailbox.rx_message"))
+    register_classes(reg, ["wormhole/_boss.py", "wormhole/_send.py", "wormhole/_order.py", "wormhole/_receive.py",
+                           "wormhole/_mailbox.py", "wormhole/wormhole.py"])
+    reg.input_as_boundary = False
+    reg.automat = AutomatSupport()
+    reg.automat.notransition_raises = True
+    for c in MACHINE_CONTRACTS:
+        reg.contracts[c.target] = c
+    sf = reg.spec_funcs
+    sf["state_index"] = lambda it, o: VInt(it.force(o).fields["__state"].z)
+    sf["n_calls"] = lambda it, suffix: VInt(sum(1 for e in it.ctx.trace if e[0] == "call" and e[1][0].endswith(it.concrete(suffix))))
+    return reg
+
+
+# ---------------------------------------------------------------------------------------------------------------
+# The composition, machine-checked.  Each lemma is a pure implication (its harness does nothing); its hypotheses are
+# the ensures-clauses of the contracts above, LOOKED UP BY NAME in the contract objects and restated over explicit
+# pre/post objects and ghost values by the substitutions given here (old(self.f) -> pre.f, self.f -> post.f, a trace
+# term -> the ghost value that names it).  Weakening or renaming a clause in a contract therefore weakens / breaks the
+# hypothesis and the lemma fails; nothing is re-typed.
+def _find(target):
+    for c in c02.CONTRACTS + CONTRACTS + MACHINE_CONTRACTS:
+        if c.target.endswith(target):
+            return c
+    raise KeyError(target)
+
+
+def imported(target, name, subst):
+    """clause `name` of the contract of `target`, with the (ordered) textual substitutions applied"""
+    c = _find(target)
+    e = dict(c.ensures + c.internal_ensures)[name]           # KeyError: the clause was renamed / removed
+    for a, b in subst:
+        e = e.replace(a, b)
+    return e
+
+
+def imported_effect(target, k, names):
+    """the k-th effect of the contract of `target` as equations between the ghost values `names` and its argument terms"""
+    c = _find(target)
+    meth, argx = c.effects[k]
+    return [f"{n} == ({a})" for n, a in zip(names, argx)]
+
+
+PRE_POST = [("old(self.", "(b0."), ("self.", "b1.")]
+INV_RX = ("{b}._next_rx_phase >= 0 and {b}._next_rx_phase <= len(sent) and {b}._next_rx_phase not in {b}._rx_phases and "
+          "forall(lambda k: implies(k in {b}._rx_phases and k >= {b}._next_rx_phase, "
+          "k < len(sent) and {b}._rx_phases[k] == sent[k]))")
+W_CLAUSES = ["gap-means-nothing-delivered", "counter-advances-by-deliveries", "delivered-in-phase-order-from-the-buffer",
+             "delivered-came-from-the-buffer-or-are-this-message", "buffer-keeps-the-rest", "buffered-bodies-unmodified",
+             "next-phase-not-buffered"]
+K_LABEL = "phase_key(key, side, phase)"
+RECV_SUBST = [("self._key", "key"), ("input_calls('got_message_good')", "n_good"), ("input_calls('got_message_bad')", "n_bad"),
+              ("input_arg('got_message_good', 0, 0)", "g_phase"), ("input_arg('got_message_good', 0, 1)", "g_plain")]
+
+LEMMAS = [
+    Contract("lemma:kth_send_message_goes_out_once_under_label_k", props=[PROP], source_module="wormhole/_boss.py",
+             params={"b0": "obj[Boss]", "b1": "obj[Boss]", "snd": "obj[Send]", "plaintext": "bytes", "sent": "seq[bytes]",
+                     "s_phase": "str", "s_plain": "bytes", "a_phase": "str", "a_body": "bytes"},
+             source_text="""
+             def kth_send_message_goes_out_once_under_label_k(b0, b1, snd, plaintext, sent, s_phase, s_plain, a_phase, a_body):
+                 return None
+             """,
+             requires=["b0._next_tx_phase == len(sent)",
+                       imported("Boss.S_send", "next-number-advances-by-one", PRE_POST)] +
+                      [e.replace("old(self.", "(b0.") for e in imported_effect("Boss.S_send", 0, ["s_phase", "s_plain"])] +
+                      [imported("Send.send", "sent-at-once-after-the-key-sealed-under-its-own-label",
+                                [("old(in_state(self, 'S1_verified_key'))", "True"), ("bcalls('add_message') == 1", "True"),
+                                 ("bcall_arg('add_message', 0, 0)", "a_phase"), ("bcall_arg('add_message', 0, 1)", "a_body"),
+                                 ("self.", "snd."), ("phase)", "s_phase)"), ("== phase", "== s_phase"),
+                                 ("plaintext)", "s_plain)")])],
+             ensures=[("label-is-the-decimal-numeral-of-its-position", "a_phase == int_str(len(sent))"),
+                      ("sealed-under-that-label-with-the-senders-side-body-unchanged",
+                       "sealed(a_body, phase_key(snd._key, snd._side, int_str(len(sent))), plaintext)"),
+                      ("numbering-invariant-kept", "b1._next_tx_phase == len(sent + [plaintext])")],
+             note="sender side, one send_message() in the steady state (key verified): Boss.S_send (number, effects) + Send.send "
+                  "(deliver row): with `sent` the messages passed to send_message so far and _next_tx_phase == len(sent), the "
+                  "message reaches the Mailbox labelled str(len(sent)), sealed for (our side, that label), unchanged"),
+    Contract("lemma:accepted_numeric_message_is_the_peers_kth", props=[PROP], source_module="wormhole/_receive.py",
+             params={"key": "bytes", "my_side": "str", "side": "str", "phase": "str", "body": "bytes", "sent": "seq[bytes]",
+                     "n_good": "int", "n_bad": "int", "g_phase": "str", "g_plain": "bytes", "scared": "bool",
+                     "n_bm": "int", "bm_phase": "str", "bm_plain": "bytes", "n_gp": "int", "gp_n": "int", "gp_plain": "bytes"},
+             source_text="""
+             def accepted_numeric_message_is_the_peers_kth(key, my_side, side, phase, body, sent, n_good, n_bad, g_phase, g_plain,
+                                                           scared, n_bm, bm_phase, bm_plain, n_gp, gp_n, gp_plain):
+                 return None
+             """,
+             requires=[
+                 # what the Mailbox forwards is never our own side's (Mailbox.rx_message, C02) and is forwarded unchanged
+                 "side != my_side",
+                 # Receive.got_message (C02): decided by the key of the label the message claims
+                 imported("Receive.got_message", "not-authentic-for-the-claimed-label-means-bad", RECV_SUBST),
+                 imported("Receive.got_message", "authentic-means-good-with-that-plaintext", RECV_SUBST),
+                 "n_good >= 0 and n_bad >= 0 and n_bm >= 0 and n_gp >= 0",
+                 # Receive.got_message_good through the table: handed to the Boss at most once, unchanged
+                 "n_bm <= n_good",
+                 "implies(n_good == 1, " +
+                 imported("Receive.got_message_good", "handed-to-Boss-exactly-once-unchanged-unless-scared",
+                          [("bcalls('got_message')", "n_bm"), ("old(in_state(self, 'S3_scared'))", "scared"),
+                           ("bcall_arg('got_message', 0, 0)", "bm_phase"), ("bcall_arg('got_message', 0, 1)", "bm_plain"),
+                           (" and bcall_names()[len(bcall_names()) - 1] == 'got_message'", ""),
+                           ("== phase", "== g_phase"), ("== plaintext", "== g_plain")]) + ")",
+                 # Boss.got_message (C02): numeric phase -> _got_phase(decimal value, same plaintext); nothing else reaches it
+                 "n_gp <= n_bm",
+                 "implies(n_bm == 1, " +
+                 imported("Boss.got_message", "numeric",
+                          [("trace_order() == ['input:_got_phase']", "n_gp == 1"), ("input_arg('_got_phase', 0, 0)", "gp_n"),
+                           ("input_arg('_got_phase', 0, 1)", "gp_plain"), ("(phase)", "(bm_phase)"), ("plaintext", "bm_plain")]) + ")",
+                 "implies(n_bm == 1 and not is_numeric_phase(bm_phase), n_gp == 0)",
+                 # AEAD + the sender lemma (ASSUMPTIONS): under the key of a label of another side only what that side's
+                 # Send sealed for exactly this label authenticates, and that is (str(k), sent[k])
+                 f"implies(sbox_valid({K_LABEL}, body) and is_numeric_phase(phase), phase == int_str(decimal_value(phase)) and "
+                 f"decimal_value(phase) < len(sent) and sbox_open({K_LABEL}, body) == sent[decimal_value(phase)])"],
+             ensures=[("what-reaches-the-reorder-buffer-is-the-peers-message-of-that-number",
+                       "implies(n_gp == 1, 0 <= gp_n and gp_n < len(sent) and gp_plain == sent[gp_n])"),
+                      ("a-forged-or-relabelled-body-reaches-nothing", f"implies(not sbox_valid({K_LABEL}, body), n_gp == 0)")],
+             note="receiver side, one message handed on by the Mailbox: Receive.got_message + Receive.got_message_good + "
+                  "Boss.got_message: if it reaches _got_phase(n, p) at all then p is unmodified sent[n]"),
+    Contract("lemma:reorder_buffer_step_keeps_received_a_prefix_of_sent", props=[PROP], source_module="wormhole/_boss.py",
+             params={"b0": "obj[Boss]", "b1": "obj[Boss]", "phase": "int", "plaintext": "bytes", "delivered": "seq[bytes]",
+                     "sent": "seq[bytes]"},
+             source_text="""
+             def reorder_buffer_step_keeps_received_a_prefix_of_sent(b0, b1, phase, plaintext, delivered, sent):
+                 return None
+             """,
+             requires=[INV_RX.format(b="b0"), "0 <= phase and phase < len(sent) and plaintext == sent[phase]"] +
+                      [imported("Boss.W_received", n, PRE_POST) for n in W_CLAUSES],
+             ensures=[("only-grows", "b1._next_rx_phase >= b0._next_rx_phase"),
+                      ("application-got-exactly-the-next-sent-messages-in-order",
+                       "b1._next_rx_phase == b0._next_rx_phase + len(delivered) and "
+                       "forall(lambda j: implies(0 <= j and j < len(delivered), delivered[j] == sent[b0._next_rx_phase + j]))"),
+                      ("invariant-kept.counter-within-sent",
+                       "implies(len(delivered) > 0, delivered[len(delivered) - 1] == sent[b1._next_rx_phase - 1]) and "
+                       "b1._next_rx_phase >= 0 and b1._next_rx_phase <= len(sent)"),
+                      ("invariant-kept.next-phase-not-buffered", "b1._next_rx_phase not in b1._rx_phases"),
+                      ("invariant-kept.buffer-holds-only-the-senders-messages-under-their-numbers",
+                       "forall(lambda k: implies(k in b1._rx_phases and k >= b1._next_rx_phase, "
+                       "k < len(sent) and b1._rx_phases[k] == sent[k]))")],
+             note="the step invariant: if the application has received exactly sent[:m] (m == _next_rx_phase) and every buffered "
+                  "phase >= m holds the sender's message of that number, then after W_received(n, sent[n]) for ANY n "
+                  "(duplicate, old, out of order, far ahead) the application has received sent[:m'], m' >= m, the new "
+                  "deliveries being sent[m:m'] in order, and the invariant holds again.  Hypotheses: every clause of "
+                  "Boss.W_received's contract, by name"),
+]
+for _c in LEMMAS:
+    _c.qf_feasibility = True
+
+
+def regf_lemma():
+    reg = regf()
+    register_classes(reg, ["wormhole/_boss.py", "wormhole/_send.py"])
+    reg.class_fields["Boss"] = {"_next_tx_phase": "int", "_rx_phases": "dict[int,bytes]", "_next_rx_phase": "int"}
+    reg.class_fields["Send"] = {"_key": "bytes", "_side": "str"}
+    return reg
+
+
 def regf(exclude=()):
     reg = c02.regf(exclude=("wormhole/_send.py:Send._encrypt_and_send",) + tuple(exclude))
     for c in CONTRACTS:
@@ -131,7 +462,9 @@ def tasks():
     from .mailbox_ready import CLUSTER_READY
     cl = [] if (not CLUSTER_READY or os.environ.get("VERIF_NO_CLUSTER")) else \
         [ClusterTask("mailbox-cluster", "props.mailbox", "engine", select_m, "mailbox_history:search")]
-    return mine + shared + obs + cl
+    machine = [ContractTask(c, regf_machine) for c in MACHINE_CONTRACTS]
+    lemmas = [ContractTask(c, regf_lemma) for c in LEMMAS]
+    return mine + machine + lemmas + shared + obs + cl
 
 
 def select_m(name):
@@ -145,8 +478,26 @@ def select_m(name):
 TRUSTED = c02.TRUSTED
 ASSUMPTIONS = [
     "the server stores what it was given and AEAD makes anything else undeliverable (C02); prefix-becomes-whole (liveness) is not decided",
-    "Mailbox._drain (re-adding every pending message on a new connection) and the rows that attach these outputs are checked by "
-    "the mailbox-cluster engine (post:C09:*:pending-resubmitted, C14 tables), not here",
-    "composition lemma 'received is a prefix of sent' is argued from these contracts (numbering + FIFO queues + dedup + reorder "
-    "buffer + label-bound keys); it is not a single machine-checked obligation",
+    "Mailbox._drain (re-adding every pending message on a new connection) is proved in C09's module; that the rows of the mailbox "
+    "cluster compose without an input arriving in a state that has no row (the NoTransition cases of the machine contracts "
+    "here: Boss._got_phase in S0/S1, Order.got_message('pake') twice, Receive.got_message_good before a key, "
+    "Mailbox.rx_message_theirs while disconnected) is the mailbox-cluster engine's business (C14 nodom:*), not decided here",
+    "composition 'received is a prefix of sent' is machine-checked as three lemmas whose hypotheses are the contracts' clauses "
+    "imported by name: lemma:kth_send_message_goes_out_once_under_label_k (sender: Boss.S_send + Send.send), "
+    "lemma:accepted_numeric_message_is_the_peers_kth (Receive.got_message + Receive.got_message_good + Boss.got_message) and "
+    "lemma:reorder_buffer_step_keeps_received_a_prefix_of_sent (step invariant over every clause of Boss.W_received, for ANY "
+    "inbound phase number).  The hops between them are the machine contracts through the real tables (Mailbox.rx_message_theirs, "
+    "Order.got_message, Receive.got_message_good, Boss._got_phase, lemma:numeric_phase_reaches_the_reorder_buffer_once_unchanged). "
+    "What joins them and is NOT machine-checked: (a) the cryptographic link, stated as a hypothesis of the second lemma: a body that "
+    "authenticates under phase_key(K, side, phase) for a side other than ours and a numeric phase was sealed by that side's Send "
+    "for exactly that label, i.e. (by the first lemma) it is (str(k), sent[k]) - AEAD unforgeability plus 'only Send seals, and "
+    "only under its own side'; (b) the induction over the sequence of inbound messages (each step is the lemma; the ghost "
+    "'received so far' is the concatenation of the per-call `delivered` sequences); (c) that the step invariant is stable when the "
+    "peer sends more (sent only grows at the end: immediate from its form); (d) queued-before-key sends (Send.queue + drain) reach "
+    "the Mailbox in order under their own labels by Send.drain's contract - the sender lemma is stated for the steady state "
+    "(deliver row)",
+    "the relational lemmas restate trace terms of a clause (bcall_arg(..), input_arg(..), old(self.f)) as ghost values by textual "
+    "substitution (props/c03.py: imported()); the substitution table is part of the trusted reading of the lemma",
+    "not under contract: Boss.send -> Send.send -> Mailbox.add_message as ONE call chain (each hop is under contract: Boss.send, "
+    "Send.send, and C09's Mailbox.add_message / rx_message_ours through the real table; the last two are run in C09's check)",
 ]
